@@ -97,6 +97,10 @@ pub struct Inv {
     /// file should go (single-file mode) / a regular file where the output folder should be
     #[serde(default)]
     pub obstacle: u8,
+    /// simulated wall-clock time of the invocation (seconds since the epoch; 0 = a fixed default).
+    /// Histories move it forwards by seconds or days and occasionally backwards.
+    #[serde(default)]
+    pub wall_clock: i64,
 }
 
 impl Inv {
